@@ -153,6 +153,7 @@ func C07(r *core.Run) {
 	ruleL7(r)
 	ruleL8(r)
 	rule016(r, "C07")
+	rule0210(r, "C07")
 }
 
 func ruleL1(r *core.Run, a *lockset.Analysis) {
